@@ -196,6 +196,13 @@ def execute(check, tier):
                     errors.append(err)
                 else:
                     audit.append((idx, r))
+    # tasks that must run in the (non-daemonic) parent process, e.g. calls into the real multiprocessing module
+    if not errors and hasattr(check, "parent_tasks"):
+        for t in check.parent_tasks():
+            try:
+                results.append(check.run(t))
+            except Exception as e:  # noqa: BLE001
+                errors.append("parent task %r: %s\n%s" % (t, e, traceback.format_exc()))
     if errors:
         print("HARNESS-ERROR property=%s %d task(s) crashed inside the harness:\n%s" % (check.id, len(errors), errors[0]))
         return 2
